@@ -195,7 +195,7 @@ def rand_fills(rng, fmt, kind, dists, dims, ntab=24):
     return fills, tables
 
 def rand_run(rng, fmt, kind, *, calls=None, iters=None, value_classes=None, dists=None, special_map=False, trace=0, cb=None,
-             poly=None, finite_only=False, ops=None, wants=None, grid_map=None, user_state=False):
+             poly=None, finite_only=False, ops=None, wants=None, grid_map=None, user_state=False, force_mapdims=False):
     dims = rng.choice([1, 2, 3]) if kind != 'mc' else rng.choice([1, 2])
     channels = rng.choice([1, 2, 3, 5]) if kind == 'mc' else 1
     chk, cl = rand_chk(rng, kind, fmt, dims, channels, force_user=user_state)
@@ -215,7 +215,7 @@ def rand_run(rng, fmt, kind, *, calls=None, iters=None, value_classes=None, dist
             mp = rand_map_grid(rng, fmt, channels, dims); classes.append('map_grid')
         else:
             mapdims = None
-            if not poly and rng.random() < 0.4:
+            if not poly and (force_mapdims or rng.random() < 0.4):
                 mapdims = rng.choice([dims + 1, dims + 2, max(1, dims - 1)]); classes.append('map_dimensions_differ')
             mp = rand_map_tab(rng, fmt, channels, special=special_map, mapdims=mapdims); classes.append('map_tab' + ('_special' if special_map else ''))
     iters = iters if iters is not None else rng.choice([1, 2, 3])
@@ -283,7 +283,20 @@ HUGE_COUNTS = [4096, 4097, 5000, 65537]        # only for operations that are li
 
 def small_bins(s):
     """the executed model refines the grid once per rank: keep default grids small in MPI cases (cost ~ ranks x dims x bins^2)"""
-    return [(['chk', ['default', min(e[1][1], 8), e[1][2]]] if e[0] == 'chk' and e[1][0] == 'default' and len(e[1]) == 3 and isinstance(e[1][1], int) else e) for e in s]
+    out = []
+    for e in s:
+        if e[0] == 'chk' and e[1][0] == 'default' and len(e[1]) == 3 and isinstance(e[1][1], int):
+            e = ['chk', ['default', min(e[1][1], 8), e[1][2]]]
+        elif e[0] == 'chk' and e[1][0] == 'pdf' and e[1][1] > 8:
+            # a user grid with many bins: every (bins/8)-th boundary if that is a grid, else the default grid with 8 bins
+            bins, dims, xs, alpha = e[1][1], e[1][2], e[1][3], e[1][4]
+            if bins % 8 == 0:
+                step = bins // 8
+                e = ['chk', ['pdf', 8, dims, [xs[d * (bins + 1) + i * step] for d in range(dims) for i in range(9)], alpha]]
+            else:
+                e = ['chk', ['default', 8, alpha]]
+        out.append(e)
+    return out
 
 def mpi_variant(rng, s, info, worlds=(2, 3, 5, 8)):
     """the same specification run by the MPI driver on the thread shim: every ['run', calls] becomes ['mpi', calls, P, perm]"""
@@ -1371,7 +1384,10 @@ def gen_C04(c, rng, tier):
                     target = rng.choice([Fraction(0), Fraction(1, 10), Fraction(1, 2)])
                     cb = ['builtin', rng.randrange(4), fmt.rtok(target)]; cl = ['cb_builtin_mode_%d' % cb[1]]
                 poly = rng.random() < 0.7
-                s0, cl2, info = rand_run(rng, fmt, kind, iters=iters, calls=[1], cb=cb, poly=poly, trace=1, grid_map=(True if poly else None),
+                # (every third multi-channel case: a map whose target dimension differs from the number of random numbers)
+                odd_map = kind == 'mc' and rng.random() < 0.34
+                if odd_map: poly = False
+                s0, cl2, info = rand_run(rng, fmt, kind, iters=iters, calls=[1], cb=cb, poly=poly, trace=1, grid_map=(True if poly else None), force_mapdims=odd_map,
                                          value_classes=None if poly else ['small_int', 'frac', 'neg', 'zero', 'nan', 'big'])
                 perm = list(range(P)); rng.shuffle(perm)
                 ops = []
